@@ -21,7 +21,8 @@ SPECIAL = ["\"", "\\", "$", "{", "}", "'", "#", "/", "*", ",", "=", "\n", "\t", 
            "\x01", "\x7f", "\x80", "\xff", "(", ")", "+=", "|", ";", "\r\n", "\n\r", "\\\n", " \n", "\t\n"]
 strings = st.lists(st.sampled_from(SPECIAL) | st.text(alphabet=st.characters(min_codepoint=1, max_codepoint=255), max_size=3) |
                    st.sampled_from(["a", "word", "1", "true"]), max_size=6).map("".join)
-floats = st.floats(allow_nan=False, allow_infinity=False, width=64) | st.sampled_from([0.0, -0.0, 1.5, 1e-10, 123456.789, 1e300, -2.5e-7])
+floats = st.floats(allow_nan=False, allow_infinity=False, width=64) | st.sampled_from([0.0, -0.0, 1.5, 1e-10, 123456.789, 1e300, -2.5e-7,
+                                                                                                 float("inf"), float("-inf"), 1.7976931348623157e308])
 
 
 # annotation bodies (no body has both a newline and an end-of-comment marker: such an annotation has no text form)
